@@ -25,8 +25,15 @@ META_PART = (
     "operation sequences and all int/float/bool/object arguments about hand-written Gallina models of "
     "Led.py and RGBLed.py (exact order of checks and raise points); the extracted models are run against "
     "the real classes on exhaustive short sequences over a boundary alphabet from several seed states plus "
-    "seeded random sequences (length <= 15), comparing result, return value, every attribute, sleeps and "
-    "level events after every call."
+    "seeded random sequences (length <= 15, a few of 40..120), comparing result, return value, every attribute, sleeps and "
+    "level events after every call.  Calls whose arguments are DERIVED from the state they meet (coq/Host/RelArgs.v: the colour "
+    "shown, its neighbours, permutations, bool/float spellings) are generated as state-relative arguments, resolved against the "
+    "model state by the extracted model and against the public getters by the implementation runner; C19_rgb_blink_total "
+    "(acceptance of blink is a function of the arguments alone; an accepted blink returns exactly the object it met, original "
+    "colour written last), C19_rgb_blink_state_neutral / _history_neutral (no hypothesis on arguments or outcome), "
+    "C19_rgb_blink_own_colour, C19_rgb_fade_total (acceptance of fade: a float `steps` is accepted exactly when the one-step "
+    "shortcut applies - duration 0 or target == colour shown), C19_rgb_fade_own_colour, C19_rgb_fade_float_steps_elsewhere, "
+    "C19_rgb_set_color_own_colour, C19_rgb_relative_arguments are proved for every state satisfying the invariant."
 )
 
 LED_CODES = {"on": 0, "off": 1, "get_state": 2, "get_brightness": 3, "set_brightness": 4, "toggle": 5,
@@ -68,7 +75,22 @@ def is_num(v):
     return isinstance(v, (int, float)) and not isinstance(v, str)
 
 
+SPELL = {"int": 0, "bool": 1, "float": 2}
+
+
+def cur(i=0, delta=0, sp="int"):
+    """state-relative argument (coq/Host/RelArgs.v): channel i of the colour shown (Led: the brightness) + delta"""
+    return {"cur": [i, delta, sp]}
+
+
+def is_rel(v):
+    return isinstance(v, dict) and "cur" in v
+
+
 def wnum(v):
+    if is_rel(v):
+        i, d, sp = v["cur"]
+        return [4, i, d, SPELL[sp]]
     if isinstance(v, bool):
         return [2, v]
     if isinstance(v, int):
@@ -131,6 +153,39 @@ def m_events(w):
     return out
 
 
+def m_args(w):
+    """resolved arguments as the model used them: pynums, a flash_pattern's entries as a nested list"""
+    return [["L", [m_num(e) for e in x]] if (x and isinstance(x[0], list)) or x == [] else m_num(x) for x in w]
+
+
+def enc_py(v):
+    """a concrete Python argument (as the implementation runner reports it) in the comparable form"""
+    if isinstance(v, bool):
+        return ["b", v]
+    if isinstance(v, int):
+        return ["i", v]
+    if isinstance(v, float):
+        return ["f", v]
+    if isinstance(v, list):
+        return ["L", [enc_py(e) for e in v]]
+    return ["n"]
+
+
+def same_arg(m, i) -> bool:
+    if m[0] == "L":
+        return i[0] == "L" and len(m[1]) == len(i[1]) and all(same_arg(a, b) for a, b in zip(m[1], i[1]))
+    return same_val(m, i)
+
+
+def concrete_case(case, r):
+    """the case with every state-relative argument replaced by the value the implementation runner resolved it to:
+    what the oracle judges and what a replay file records"""
+    cls, cargs, ops = case
+    if not any(is_rel(a) or (isinstance(a, list) and any(is_rel(e) for e in a)) for op in ops for a in op[1:]):
+        return case
+    return [cls, cargs, [[op[0]] + list(rec["args"]) for op, rec in zip(ops, r["ops"])] + [list(o) for o in ops[len(r["ops"]):]]]
+
+
 def decode_model(cls, w):
     if w == [2]:
         return {"undecodable": True}
@@ -141,7 +196,7 @@ def decode_model(cls, w):
     for o in ops:
         rec = {"res": "ok" if o[0] == 0 else KINDS[o[1]],
                "ret": m_ret(o[1]) if o[0] == 0 else ["n"],
-               "snap": m_snap(cls, o[2]), "events": m_events(o[3])}
+               "snap": m_snap(cls, o[2]), "events": m_events(o[3]), "args": m_args(o[4])}
         out["ops"].append(rec)
     return out
 
@@ -205,8 +260,15 @@ def compare(ctx, case, m, r):
     if len(m["ops"]) != len(r["ops"]):
         ctx.disagree("number of op results differs", case, len(m["ops"]), len(r["ops"]))
         return 0
+    conc = concrete_case(case, r)
     for k, (a, b) in enumerate(zip(m["ops"], r["ops"])):
         what = None
+        margs = a["args"]
+        iargs = [enc_py(x) for x in b["args"]]
+        if len(margs) != len(iargs) or not all(same_arg(x, y) for x, y in zip(margs, iargs)):
+            ctx.disagree(f"{case[0]}.{case[2][k][0]} (op #{k}): a state-relative argument resolves differently (model state vs the real getters)",
+                         {"relative": [case[0], case[1], case[2][:k + 1]], "concrete": [conc[0], conc[1], conc[2][:k + 1]]}, margs, iargs)
+            return k
         if a["res"] != b["res"]:
             what = "result kind"
         elif not same_val(a["ret"], b["ret"]):
@@ -217,7 +279,7 @@ def compare(ctx, case, m, r):
             what = "sleep/level events"
         if what:
             ctx.disagree(f"{case[0]}.{case[2][k][0]} (op #{k}): {what}: model vs implementation",
-                         [case[0], case[1], case[2][:k + 1]], _brief(a), _brief(b))
+                         [conc[0], conc[1], conc[2][:k + 1]], _brief(a), _brief(b))
             return k
     return len(m["ops"])
 
@@ -274,6 +336,16 @@ def monotone(seq, up: bool) -> bool:
     return all((a <= b) if up else (a >= b) for a, b in zip(seq, seq[1:]))
 
 
+def getter_view(cls, get):
+    """what the PUBLIC getters report, in the shape of the attribute snapshot (the statement's observation points are
+    'public getters and attributes after every call': the invariant is judged on both views)"""
+    if not get:
+        return None
+    if cls == "Led":
+        return {"brightness": get.get("get_brightness"), "state": get.get("get_state")}
+    return {"_color": get.get("get_color"), "_state": get.get("get_state")}
+
+
 def oracle_case(ctx, case, r, safety_only=False):
     """evaluate the property clauses on the implementation's behaviour; returns #clauses evaluated.
     safety_only (IEEE-specials stream): invariant and atomicity of failing calls only"""
@@ -288,21 +360,38 @@ def oracle_case(ctx, case, r, safety_only=False):
     if bad:
         ctx.fail(f"{cls}: invariant broken right after construction: {bad}", [cls, cargs, []], "invariant", prev, key=f"{cls}-inv-init")
         return n
+    gprev = getter_view(cls, r.get("get0"))
+    if gprev is not None:
+        bad = inv(gprev)
+        n += 1
+        if bad:
+            ctx.fail(f"{cls}: the public getters break the invariant right after construction: {bad}", [cls, cargs, []], "invariant", gprev, key=f"{cls}-ginv-init")
+            return n
     for k, (op, rec) in enumerate(zip(ops, r["ops"])):
         sub = [cls, cargs, ops[:k + 1]]
         snap = rec["snap"]
         name = op[0]
-        # 1. invariant after every call, successful or failing
+        gview = getter_view(cls, rec.get("get"))
+        # 1. invariant after every call, successful or failing (attributes, then public getters)
         bad = inv(snap)
         n += 1
         if bad:
             ctx.fail(f"{cls}: invariant broken after {name}: {bad}", sub, "invariant holds", snap, key=f"{cls}-inv-{name}")
             return n
+        if gview is not None:
+            bad = inv(gview)
+            n += 1
+            if bad:
+                ctx.fail(f"{cls}: the public getters break the invariant after {name}: {bad}", sub, "invariant holds", gview, key=f"{cls}-ginv-{name}")
+                return n
         # 2. a call that raises for an invalid scalar argument leaves the object exactly as it was
         if rec["res"] != "ok" and scalar_args(cls, op):
             n += 1
             if snap != prev:
                 ctx.fail(f"{cls}.{name} raised {rec['res']} but changed the object", sub, prev, snap, key=f"{cls}-atomic-{name}")
+                return n
+            if gview is not None and gprev is not None and gview != gprev:
+                ctx.fail(f"{cls}.{name} raised {rec['res']} but the getters report a changed object", sub, gprev, gview, key=f"{cls}-gatomic-{name}")
                 return n
         if rec["res"] == "ok" and not safety_only:
             args = full_args(cls, op)
@@ -324,6 +413,9 @@ def oracle_case(ctx, case, r, safety_only=False):
                     n += 1
                     if snap["_color"] != prev["_color"]:
                         ctx.fail("RGBLed.blink did not end on its original colour", sub, prev["_color"], snap["_color"], key="RGBLed-blink-restore")
+                        return n
+                    if gview is not None and gprev is not None and gview["_color"] != gprev["_color"]:
+                        ctx.fail("RGBLed.blink did not end on its original colour (get_color())", sub, gprev["_color"], gview["_color"], key="RGBLed-blink-restore")
                         return n
             if cls == "RGBLed" and name == "fade":
                 target = [int(args[0]), int(args[1]), int(args[2])]
@@ -367,6 +459,7 @@ def oracle_case(ctx, case, r, safety_only=False):
                     ctx.fail(f"Led.{name} slept {float(total)} ms, not steps*delay_ms = {float(want)}", sub, float(want), float(total), key=f"Led-{name}-sleep")
                     return n
         prev = snap
+        gprev = gview
     return n
 
 
@@ -481,6 +574,73 @@ def rgb_ctor_cases():
     return cases
 
 
+# ---- state-relative families (coq/Host/RelArgs.v): arguments derived from the state the call meets ----
+
+OWN = [cur(0), cur(1), cur(2)]
+
+RGB_REL_STATES = [
+    [], [["set_color", 10, 200, 30]], [["on"]], [["set_color", 0, 0, 1]], [["set_color", 1, 0, 0]], [["set_color", 255, 0, 0]],
+    [["set_color", 0, 255, 128]], [["set_color", 254, 255, 1]], [["fade", 7, 77, 177, 10, 4]],
+    [["set_color", 5, 6, 7], ["blink", 1, 2, 3, 1, 0]], [["set_color", 9, 9, 9], ["set_color", 256, 0, 0]],
+    [["set_color", True, True, False]], [["on", 1, 1, 1]], [["on"], ["off"]], [["set_color", 128, 128, 128], ["fade", 128, 128, 127, 5, 2]],
+]
+
+
+def own_as(sp):
+    return [cur(0, 0, sp), cur(1, 0, sp), cur(2, 0, sp)]
+
+
+def rgb_rel_ops():
+    ops = []
+    # blink in the colour shown
+    for t, d in [(1, 0), (1, 5), (2, 2.5), (3, 0.0), (True, True), (7, 1)]:
+        ops.append(["blink"] + OWN + [t, d])
+    ops += [["blink"] + OWN, ["blink"] + OWN + [2], ["blink"] + own_as("bool") + [2, 5], ["blink"] + own_as("float") + [1, 5],
+            ["blink"] + OWN + [0, 5], ["blink"] + OWN + [2.0, 5], ["blink"] + OWN + [1, -1], ["blink"] + OWN + [None, 5], ["blink"] + OWN + [1, None],
+            ["blink", cur(1), cur(2), cur(0), 2, 5], ["blink", cur(2), cur(1), cur(0), 1, 0], ["blink", cur(0), 0, 0, 1, 5], ["blink", 0, cur(1), cur(2), 2, 0],
+            ["blink", cur(0), cur(0), cur(0), 1, 5]]
+    for pos in range(3):
+        for dz in (1, -1):
+            a = list(OWN)
+            a[pos] = cur(pos, dz)
+            ops.append(["blink"] + a + [2, 5])
+            ops.append(["set_color"] + a)
+            ops.append(["fade"] + a + [10, 3])
+    # fade to the colour shown / to its neighbours (the one-step shortcut is decided by exactly this relation)
+    for d, n in [(100, 3), (0, 5), (100, 2.5), (2.5, True), (100, 1), (100, 2.0), (100, 0), (-1, 3), (None, 3), (100, None), (0, 2.5)]:
+        ops.append(["fade"] + OWN + [d, n])
+    ops += [["fade"] + OWN, ["fade"] + OWN + [10], ["fade"] + own_as("bool") + [10, 2], ["fade"] + own_as("float") + [10, 2],
+            ["fade", cur(0, 1), cur(1, 1), cur(2, 1), 10, 4], ["fade", cur(0, -1), cur(1, -1), cur(2, -1), 10, 4],
+            ["fade", cur(0, 2), cur(1, -2), cur(2), 10, 7], ["fade", cur(0, 3), cur(1, -3), cur(2, 1), 8, 16],
+            ["fade", cur(0, 1), cur(1), cur(2), 100, 2.5], ["fade", cur(0), cur(1), cur(2, -1), 100, 2.0],
+            ["fade", cur(1), cur(2), cur(0), 10, 3], ["fade", cur(0), 0, 0, 10, 2], ["fade", cur(0, 40), cur(1, -40), cur(2, 7), 20, 5]]
+    # set_color / on with the colour shown
+    ops += [["set_color"] + OWN, ["set_color"] + own_as("bool"), ["set_color"] + own_as("float"), ["set_color", cur(2), cur(0), cur(1)],
+            ["on"] + OWN, ["on"] + OWN[:1], ["on"] + OWN[:2], ["on", cur(0, 0, "bool")], ["set_color", cur(0), cur(1), None]]
+    return ops
+
+
+def rgb_rel_small():
+    return [["blink"] + OWN + [1, 0], ["blink"] + OWN + [2, 2.5], ["blink", cur(0, 1), cur(1), cur(2), 1, 5], ["blink"] + OWN + [0, 5],
+            ["fade"] + OWN + [10, 3], ["fade", cur(0, 1), cur(1, -1), cur(2), 10, 2], ["fade"] + OWN + [10, 2.5], ["set_color", cur(0, 1), cur(1), cur(2)],
+            ["set_color", 0, 0, 0], ["on"], ["blink", 9, 8, 7, 1, 0], ["set_color", cur(1), cur(2), cur(0)]]
+
+
+LED_REL_STATES = [[], [["on"]], [["set_brightness", 1]], [["set_brightness", 254]], [["set_brightness", 128]],
+                  [["set_brightness", 255], ["toggle"]], [["set_brightness", 77], ["set_brightness", 256]], [["fade_in", 100, 1]]]
+
+
+def led_rel_ops():
+    ops = []
+    for dz in (-1, 0, 1, 2, -128):
+        for sp in ("int", "bool", "float"):
+            ops.append(["set_brightness", cur(0, dz, sp)])
+    ops += [["flash_pattern", [cur(), cur(0, 1), 0, cur()], 5], ["flash_pattern", [cur(0, -1), cur()], 0], ["flash_pattern", [cur(0, 0, "bool")]],
+            ["blink", cur(), 2], ["blink", cur(0, 0, "float"), True], ["blink", 5, cur()], ["fade_in", cur(), 1], ["fade_out", cur(), 1],
+            ["fade_in", cur(0, 1), 0], ["fade_out", cur(0, 0, "float"), 2.5], ["fade_in", 5, cur()]]
+    return ops
+
+
 def pick(rng, ok, boundary, invalid, p_inv=0.1):
     x = rng.random()
     if x < 0.7:
@@ -500,7 +660,9 @@ def rand_led_op(rng):
     def delay():
         return pick(rng, lambda: rng.choice([0, 1, 5, 10, 2.5, 0.25, 100, 7.0]), [0, 0.0, True, False], [-1, -0.5, None])
     if k == "set_brightness":
-        return [k, pick(rng, bri, [0, 1, 254, 255, 255.0, 0.5, 254.5, True, False], [-1, 256, -0.5, 255.5, None, "x", 1000, -1000])]
+        if rng.random() < 0.15:
+            return [k, cur(0, rng.choice([0, 0, 1, -1, 2, -2, 100, -100]), rng.choice(["int", "int", "bool", "float"]))]
+        return [k, pick(rng, bri, [0, 1, 254, 255, 255.0, 0.5, 254.5, True, False], [-1, 256, -0.5, 255.5, None, "x", 1000, -1000, 10 ** 20, -10 ** 20, 1e300])]
     if k == "blink":
         op = [k, delay()]
         if rng.random() < 0.85:
@@ -528,10 +690,21 @@ def rand_rgb_op(rng):
     k = rng.choices(["set_color", "on", "off", "pins", "get_color", "get_state", "fade", "blink"], [25, 8, 6, 2, 3, 3, 30, 18])[0]
     if k in ("off", "pins", "get_color", "get_state"):
         return [k]
-    def ch(p_inv=0.04):
-        return pick(rng, lambda: rng.randint(0, 255), [0, 1, 254, 255, True, False], [-1, 256, 1.0, 128.5, None, "x"], p_inv=p_inv)
+    def ch(pos, p_inv=0.04):
+        if rng.random() < 0.18:     # derived from the colour shown: same channel mostly, small offsets, occasionally another spelling
+            return cur(pos if rng.random() < 0.8 else rng.randrange(3), rng.choice([0, 0, 0, 0, 1, -1, 2, -3, 17, -60]),
+                       rng.choice(["int", "int", "int", "int", "bool", "float"]))
+        return pick(rng, lambda: rng.randint(0, 255), [0, 1, 254, 255, True, False], [-1, 256, 1.0, 128.5, None, "x", 10 ** 20, -10 ** 20], p_inv=p_inv)
     def col():
-        return [ch(), ch(), ch()]
+        x = rng.random()
+        if x < 0.14:                # the colour shown itself
+            return list(OWN)
+        if x < 0.20:                # one channel off by one
+            a = list(OWN)
+            pos = rng.randrange(3)
+            a[pos] = cur(pos, rng.choice([1, -1]))
+            return a
+        return [ch(0), ch(1), ch(2)]
     if k == "set_color":
         return [k] + col()
     if k == "on":
@@ -593,6 +766,23 @@ def generate(ctx):
     for _ in range(4000 if thorough else 450):
         cargs = rng.choice([[9, 10, 11], [9, 10, 11], [0, 1, 2], [True, 5, 6], [3, 3, 3], [9, -1, 11], [9, 10, None], [2.5, 1, 2]])
         add("rgb-random", "RGBLed", cargs, [rand_rgb_op(rng) for _ in range(rng.randint(1, 15))])
+    # --- arguments derived from the state the call meets (both tiers: every op of the family after every state prefix,
+    #     followed by the getters; then ordered pairs over a reduced family)
+    for pre in RGB_REL_STATES:
+        for o in rgb_rel_ops():
+            add("rgb-relative", "RGBLed", [9, 10, 11], pre + [o, ["get_color"], ["get_state"]])
+    rsmall = rgb_rel_small()
+    for pre in (RGB_REL_STATES if thorough else [RGB_REL_STATES[1], RGB_REL_STATES[3], RGB_REL_STATES[8]]):
+        for a in rsmall:
+            for b in rsmall:
+                add("rgb-relative-pair", "RGBLed", [9, 10, 11], pre + [a, b])
+    for pre in LED_REL_STATES:
+        for o in led_rel_ops():
+            add("led-relative", "Led", [], pre + [o, ["get_brightness"], ["get_state"]])
+    # --- long histories (the statement says "every sequence"; the streams above stop at 15 calls)
+    for _ in range(60 if thorough else 8):
+        add("rgb-long", "RGBLed", [9, 10, 11], [rand_rgb_op(rng) for _ in range(rng.randint(40, 120))])
+        add("led-long", "Led", [], [rand_led_op(rng) for _ in range(rng.randint(40, 120))])
     return cases, tags
 
 
@@ -610,6 +800,32 @@ def arg_class(v):
     if isinstance(v, list):
         return "list"
     return "object"
+
+
+def relation_class(cls, prev, op, rec):
+    """how the colour / brightness argument of a SUCCESSFUL call relates to the state it met (measured on the real object)"""
+    if rec["res"] != "ok" or prev is None:
+        return None
+    try:
+        if cls == "RGBLed" and op[0] in ("blink", "fade", "set_color") or (cls == "RGBLed" and op[0] == "on" and len(op) == 4):
+            before = [x[1] for x in prev["_color"][1]]
+            arg = [int(a) for a in op[1:4]]
+            same = sum(1 for a, b in zip(arg, before) if a == b)
+            lit = "lit" if any(before) else "black"
+            if same == 3:
+                return f"RGBLed.{op[0]}: colour == colour shown ({lit})"
+            if sorted(arg) == sorted(before):
+                return f"RGBLed.{op[0]}: a permutation of the colour shown"
+            if same:
+                return f"RGBLed.{op[0]}: {same} channel(s) equal to the colour shown"
+            dirs = {(a > b) - (a < b) for a, b in zip(arg, before)}
+            return f"RGBLed.{op[0]}: all channels differ ({'mixed directions' if len(dirs) > 1 else 'one direction'}, from {lit})"
+        if cls == "Led" and op[0] == "set_brightness":
+            b, a = prev["brightness"][1], int(op[1])
+            return "Led.set_brightness: value == brightness" if a == b else ("Led.set_brightness: brightness +-1" if abs(a - b) == 1 else "Led.set_brightness: other")
+    except Exception:  # noqa - an unexpected shape is the oracle's business, not the statistics'
+        return None
+    return None
 
 
 def run_cases(cases):
@@ -656,6 +872,7 @@ def specials_cases():
 
 
 def run_unit(ctx: C.Ctx) -> dict:
+    n_fail0 = len(ctx.failures)
     load_defaults(ctx)
     cases, tags = generate(ctx)
     impl = run_cases(cases)
@@ -663,9 +880,12 @@ def run_unit(ctx: C.Ctx) -> dict:
     model = ctx.model([wire_case(c) for c in cases], unit=UNIT) if have_model else [None] * len(cases)
 
     op_kinds, res_kinds, arg_kinds, lens, by_tag = Counter(), Counter(), Counter(), Counter(), Counter(tags)
+    relations = Counter()
     distinct = set()
-    n_ops = n_cmp = n_clauses = 0
-    for case, r, m in zip(cases, impl, model):
+    n_ops = n_cmp = n_clauses = n_rel_args = 0
+    for rcase, r, m in zip(cases, impl, model):
+        case = concrete_case(rcase, r)          # what the real object was actually called with
+        n_rel_args += sum(1 for op in rcase[2] for a in op[1:] for e in (a if isinstance(a, list) else [a]) if is_rel(e))
         cls = case[0]
         lens[len(case[2])] += 1
         if r["ctor"][0] != "ok":
@@ -682,11 +902,16 @@ def run_unit(ctx: C.Ctx) -> dict:
                         arg_kinds["entry:" + arg_class(e)] += 1
             if op[0] not in ("get_state", "get_brightness", "get_color", "pins"):
                 distinct.add((cls, json.dumps(prev, sort_keys=True), json.dumps(op)))
+            rel = relation_class(cls, prev, op, rec)
+            if rel:
+                relations[rel] += 1
             prev = rec["snap"]
         n_clauses += oracle_case(ctx, case, r)
         if m is not None:
-            n_cmp += compare(ctx, case, decode_model(cls, m), r)
+            n_cmp += compare(ctx, rcase, decode_model(cls, m), r)
     replay_findings(ctx)
+    # report the shortest failing history of each class first (ctx.finish keeps the first per key)
+    ctx.failures[n_fail0:] = sorted(ctx.failures[n_fail0:], key=lambda f: (len(f["case"][2]), len(json.dumps(f["case"], default=str))))
     spec = specials_cases()
     n_spec = 0
     for case, r in zip(spec, run_cases(spec)):
@@ -700,7 +925,11 @@ def run_unit(ctx: C.Ctx) -> dict:
                  "-1/0/1/mid/254/255/256, halves, whole floats, bools, None, a str; omitted arguments) after each of %s seed "
                  "prefixes; (b) all ordered pairs over a reduced alphabet (%d / %d ops) from %s seed states; (c) RGBLed constructor "
                  "pin combinations; (d) seeded random sequences of length 1..15 (about 70%% in-range, 20%% boundary, 10%% invalid "
-                 "arguments).  evaluations = method calls executed on the real objects and compared with the model; "
+                 "arguments; about 20%% of the colour arguments derived from the colour shown); (e) STATE-RELATIVE families (coq/Host/RelArgs.v): blink / fade / set_color / on "
+                 "with the colour currently shown, its +-1 neighbours per channel, permutations, bool and float spellings, valid and invalid times / "
+                 "delay / steps, after 15 RGBLed state prefixes (black, lit, reached by set_color / on / fade / blink / a failed call / bools), ordered "
+                 "pairs of such calls, and Led.set_brightness / flash_pattern / blink / fade with the current brightness +-1 after 8 prefixes - resolved "
+                 "independently against the model state and against the real getters; (f) long histories of 40..120 calls.  evaluations = method calls executed on the real objects and compared with the model; "
                  "distinct non-trivial = distinct (class, full state before the call, call) triples excluding pure getters"
                  % (len(led_alphabet()), len(rgb_alphabet()), "10" if ctx.tier == "thorough" else "3",
                     len(led_small_alphabet(ctx.tier == "thorough")), len(rgb_small_alphabet(ctx.tier == "thorough")),
@@ -709,6 +938,8 @@ def run_unit(ctx: C.Ctx) -> dict:
         "distribution": {"sequences": len(cases), "sequences_by_generator": dict(by_tag), "ops": n_ops,
                          "op_results_compared_with_model": n_cmp, "oracle_clauses_evaluated": n_clauses,
                          "specials_stream_ops_implementation_only": n_spec,
+                         "state_relative_arguments_sent": n_rel_args,
+                         "argument_vs_state_relations_of_successful_calls": dict(sorted(relations.items())),
                          "op_kinds": dict(op_kinds), "result_kinds": dict(res_kinds), "argument_kinds": dict(arg_kinds),
                          "sequence_lengths": {str(k): v for k, v in sorted(lens.items())}},
         "guard": ("atomicity of failing calls is demanded for every call whose failure can only come from a scalar argument "
@@ -719,7 +950,7 @@ def run_unit(ctx: C.Ctx) -> dict:
                        "direct writes to the public attributes Led.state/brightness/pin",
                        "the real time.sleep (the package-level sleep is replaced by a recorder, as tests/test_actuators.py does)",
                        "steps below 1/4 in Led.fade_in/fade_out (loop length > 1100) are not generated"],
-        "trusted_base": ["harness/impl/c19_led_impl.py (drives the real classes, records sleep through Reduino.Actuators.sleep and levels by wrapping Led.set_brightness / RGBLed.set_color)",
+        "trusted_base": ["harness/impl/c19_led_impl.py (drives the real classes, records sleep through Reduino.Actuators.sleep and levels by wrapping Led.set_brightness / RGBLed.set_color; resolves state-relative arguments through get_color() / get_brightness() and reports the concrete arguments used - the replay of a failure holds those concrete arguments)",
                          "harness/props/c19_led.py (generators, value comparison with 1e-9 relative float tolerance, property oracle)"],
         "assumptions": ["floats sent are dyadic rationals with small denominators, so exact-rational and binary64 evaluation agree on every integer result (measured by the correspondence)",
                         "Led/RGBLed objects are only driven through their public methods"],
